@@ -14,7 +14,9 @@ import (
 
 // GState is one state of the model: the keys in ascending order and the values
 // in that order (the enumeration order of a plain map is not part of its state).
-type GState struct{ Keys, Vals []int }
+// In the scope of two live objects (NHeld = 1) a state also has the held object's
+// keys and values.
+type GState struct{ Keys, Vals, HKeys, HVals []int }
 
 // GEdge is one labelled transition of the model.
 type GEdge struct {
@@ -30,6 +32,7 @@ type Graph struct {
 	Out    [][]GEdge
 	NEdges int
 	NKeys  int
+	NHeld  int // 1: the scope of two live objects (one held from the start)
 }
 
 func ints(s string) ([]int, error) {
@@ -50,6 +53,7 @@ func ints(s string) ([]int, error) {
 // ParseGraph reads the text form written by checks/c12.py from TLC's dump:
 //
 //	S <id> <keys,..>|<vals,..>             one line per state, ids 0..n-1 in order
+//	S <id> <keys>|<vals>|<hkeys>|<hvals>   ... in the scope of two live objects
 //	E <src> <op> <a> <b> <ks> <vs> <dst>   one line per transition; the label is
 //	                                       <<name, key, value>>, <<"Sort", index into
 //	                                       Dirs, 0>>, <<"ContainsValue", 0, value>> or
@@ -75,15 +79,26 @@ func ParseGraph(name, text string) (*Graph, error) {
 				return bad(fmt.Errorf("state ids must be 0,1,2,.. in order"))
 			}
 			p := strings.Split(f[2], "|")
-			if len(p) != 2 {
-				return bad(fmt.Errorf("want keys|vals"))
+			if len(p) != 2 && len(p) != 4 {
+				return bad(fmt.Errorf("want keys|vals or keys|vals|hkeys|hvals"))
 			}
 			k, e1 := ints(p[0])
 			v, e2 := ints(p[1])
 			if e1 != nil || e2 != nil || len(k) != len(v) {
 				return bad(fmt.Errorf("bad state"))
 			}
-			g.States = append(g.States, GState{Keys: k, Vals: v})
+			st := GState{Keys: k, Vals: v}
+			if len(p) == 4 {
+				hk, e3 := ints(p[2])
+				hv, e4 := ints(p[3])
+				if e3 != nil || e4 != nil || len(hk) != len(hv) || (id > 0 && g.NHeld != 1) {
+					return bad(fmt.Errorf("bad held state"))
+				}
+				st.HKeys, st.HVals, g.NHeld = hk, hv, 1
+			} else if g.NHeld != 0 {
+				return bad(fmt.Errorf("state without the held object"))
+			}
+			g.States = append(g.States, st)
 			g.Out = append(g.Out, nil)
 		case "E":
 			if len(f) != 8 {
@@ -114,11 +129,16 @@ func ParseGraph(name, text string) (*Graph, error) {
 			case "ks":
 				op.Ks, op.Vs = ks, vs
 				op.V = src // which constructor builds the argument map (not part of the label)
+			case "h":
+				op.K = a // handle of a held object (0: the object itself), not a key
+				if a < 0 || a > g.NHeld {
+					return bad(fmt.Errorf("no such held object"))
+				}
 			default:
 				op.V = src // RoundTrip: which constructor reads the wire form back
 			}
 			for _, k := range append([]int{op.K}, op.Ks...) {
-				if k > g.NKeys {
+				if k > g.NKeys && OpArgs[op.Name] != "h" {
 					g.NKeys = k
 				}
 			}
@@ -128,7 +148,7 @@ func ParseGraph(name, text string) (*Graph, error) {
 			return bad(fmt.Errorf("unknown line"))
 		}
 	}
-	if len(g.States) == 0 || len(g.States[0].Keys) != 0 {
+	if len(g.States) == 0 || len(g.States[0].Keys) != 0 || len(g.States[0].HKeys) != 0 {
 		return nil, fmt.Errorf("graph %s: state 0 must be the empty initial state", name)
 	}
 	return g, nil
@@ -182,7 +202,11 @@ type ReplayStats struct {
 // judges every transition; in addition the walk compares the enumeration (as a
 // sorted list) with the model's successor state and stops at the first
 // difference (the walk would be lost), leaving the verdict on that event to TLC.
-func (g *Graph) Replay(t *core.Trace, gen string, cas int, fresh func() *Obj, cut int, extra Ev) ReplayStats {
+//
+// In the scope of two live objects every history starts by constructing the
+// second object with heldCtor ("New"); every step is followed by the full
+// enumeration of BOTH objects, and both are compared with the model's state.
+func (g *Graph) Replay(t *core.Trace, gen string, cas int, fresh func(Ctor) *Obj, ctor, heldCtor Ctor, cut int, extra Ev) ReplayStats {
 	var st ReplayStats
 	st.Edges = g.NEdges
 	var s *Session
@@ -190,7 +214,11 @@ func (g *Graph) Replay(t *core.Trace, gen string, cas int, fresh func() *Obj, cu
 		if s != nil {
 			st.Events += s.Events
 		}
-		s = Start(t, gen, cas, fresh(), true, extra)
+		s = Start(t, gen, cas, fresh(ctor), true, extra)
+		s.Fac = fresh
+		for i := 0; i < g.NHeld; i++ {
+			s.New(heldCtor)
+		}
 	}
 	start()
 	o := s.O
@@ -246,6 +274,15 @@ func (g *Graph) Replay(t *core.Trace, gen string, cas int, fresh func() *Obj, cu
 		k, v := sortPairs(s.LastK, s.LastV)
 		if !sameInts(k, want.Keys) || !sameInts(v, want.Vals) {
 			return cur, false
+		}
+		if g.NHeld > 0 {
+			if len(s.LastHK) != g.NHeld || s.Dead {
+				return cur, false
+			}
+			hk, hv := sortPairs(s.LastHK[0], s.LastHV[0])
+			if !sameInts(hk, want.HKeys) || !sameInts(hv, want.HVals) {
+				return cur, false
+			}
 		}
 		visited[e.Dst] = true
 		return e.Dst, true
